@@ -853,9 +853,10 @@ func (repo *Repository) MarkHeaderInvalid(ctx context.Context, hash bitcoin.Hash
 		}
 	}
 
-	if height > branch.parentHeight+1 && height <= branch.PrunedLowestHeight() {
-		// Everything this branch still holds in memory is being removed, so bring the headers below
-		// that back from storage.
+	if height > branch.parentHeight+1 && height-branch.PrunedLowestHeight() < pruneDepth {
+		// Less than the usual depth of this branch will be left in memory below the new tip (nothing
+		// at all when everything it still holds is being removed), so bring the headers below that
+		// back from storage. The next headers need them to calculate their target.
 		if err := repo.restorePruned(ctx, branch, pruneDepth); err != nil {
 			return errors.Wrap(err, "restore pruned")
 		}
